@@ -958,8 +958,9 @@ func processValue(fset *token.FileSet, info *types.Info, call *ast.CallExpr) (*V
 				return false
 			}
 		case *ast.CallExpr:
-			// Only acceptable if it's a type conversion.
-			if _, isFunc := info.TypeOf(expr.Fun).(*types.Signature); isFunc {
+			// Only acceptable if it's a type conversion (or a call the type
+			// checker folded into a constant, such as len of an array).
+			if tv := info.Types[expr.Fun]; !tv.IsType() && info.Types[expr].Value == nil {
 				ok = false
 				return false
 			}
